@@ -33,16 +33,6 @@ DeliveredPrefixBetween(e, lo, hi) == /\ Len(e.delivered) >= lo /\ Len(e.delivere
 (* ------------------------------- C08 ----------------------------------- *)
 \* What a reader must do on the first `cut` bytes: K = records of the blocks whose payload is completely
 \* present; clean = the prefix ends exactly at the end of the header or of a block.
-RECURSIVE CutWalk(_, _, _)
-CutWalk(bs, pos, acc) ==
-  IF pos = Len(bs) + 1 THEN [k |-> acc, clean |-> TRUE]
-  ELSE LET c == SmallAt(bs, pos) IN
-       IF ~c.ok THEN [k |-> acc, clean |-> FALSE] ELSE
-       LET n == SmallAt(bs, c.pos) IN
-       IF ~n.ok \/ n.val < 0 \/ ~Have(bs, n.pos, n.val) THEN [k |-> acc, clean |-> FALSE]
-       ELSE IF ~Have(bs, n.pos + n.val, 16) THEN [k |-> acc + c.val, clean |-> FALSE]
-       ELSE CutWalk(bs, n.pos + n.val + 16, acc + c.val)
-
 CutExpect(cut) ==
   LET bs == SubSeq(file, 1, cut) IN
   IF cut < pf.hdr.pos - 1 THEN [k |-> 0, clean |-> FALSE]      \* inside the header
